@@ -82,7 +82,7 @@ def main():
             try:
                 if res is not None and isinstance(exprs, list):
                     b_, c_ = digest(exprs), digest(res)
-                    emit(dict(e='A', base=b_, cand=c_))
+                    emit(dict(e='A', base=b_, cand=c_, shared=not ids_distinct(res)))
                     if b_ == c_:
                         ids_ = {n.id: str(n) for n in nodes.dfs(exprs)}
                         emit(dict(e='NOOP', substs={str(ids_.get(k, k)): v for k, v in pre_.items()},
